@@ -1,7 +1,172 @@
-(** placeholder, replaced in the same commit series *)
-From Coq Require Import ZArith List.
-From Low Require Import Model.Semver Model.Vers.
+(** X01 (extra check, not a record of properties.jsonl) — package vers: IsCompatible / Check decide "the version
+    satisfies one of the groups of the range entirely" with the precedence order of Semantic Versioning 2.0.0.
+    Only the theorems (each closed by [exact]), their axiom audit and non-vacuity examples.
+    Model: Model/Vers.v on top of Model/Semver.v (blang/semver v3.5.1 modelled function by function).
+    The PARSERS ([Parse], [range_groups]) are third-party, modelled and NOT verified: the theorems take what they
+    return as given and are about everything after parsing — the comparison, the closures, the two functions. *)
+From Coq Require Import ZArith List Bool.
+From Low Require Import Lib.Lex Model.Semver Model.Vers Spec.VersSpec
+  Proofs.SemverOrder Proofs.VersProofs Proofs.SemverNoPanic.
 Import ListNotations.
-Theorem X01_placeholder_partial : IsCompatible [] [] = Some false.
-Proof. exact eq_refl. Qed.
-Print Assumptions X01_placeholder_partial.
+Open Scope Z_scope.
+
+(** byte strings used by the refutation witnesses and the examples *)
+Definition V000 : str := [48; 46; 48; 46; 48].   (* "0.0.0" *)
+Definition V100 : str := [49; 46; 48; 46; 48].   (* "1.0.0" *)
+Definition V200 : str := [50; 46; 48; 46; 48].   (* "2.0.0" *)
+Definition V300 : str := [51; 46; 48; 46; 48].   (* "3.0.0" *)
+Definition V123 : str := [49; 46; 50; 46; 51].   (* "1.2.3" *)
+Definition V311 : str := [51; 46; 49; 46; 49].   (* "3.1.1" *)
+Definition V211 : str := [50; 46; 49; 46; 49].   (* "2.1.1" *)
+Definition V421 : str := [52; 46; 50; 46; 49].   (* "4.2.1" *)
+Definition V115 : str := [49; 46; 49; 46; 53].   (* "1.1.5" *)
+Definition V1x : str := [49; 46; 120].   (* "1.x" *)
+Definition R1 : str := [62; 49; 46; 48; 46; 48; 32; 60; 50; 46; 48; 46; 48].   (* ">1.0.0 <2.0.0" *)
+Definition R2 : str := [62; 51; 46; 48; 46; 48; 32; 33; 52; 46; 50; 46; 49].   (* ">3.0.0 !4.2.1" *)
+Definition VBADV : str := [97; 98; 99; 46; 101].   (* "abc.e" *)
+Definition VBADR : str := [97; 46; 98; 46; 99].   (* "a.b.c" *)
+Definition V100b : str := [49; 46; 48; 46; 48; 43; 98; 117; 105; 108; 100; 46; 55].   (* "1.0.0+build.7" *)
+Definition PAlpha : str := [49; 46; 48; 46; 48; 45; 97; 108; 112; 104; 97].   (* "1.0.0-alpha" *)
+Definition PAlpha1 : str := [49; 46; 48; 46; 48; 45; 97; 108; 112; 104; 97; 46; 49].   (* "1.0.0-alpha.1" *)
+Definition PAlphaBeta : str := [49; 46; 48; 46; 48; 45; 97; 108; 112; 104; 97; 46; 98; 101; 116; 97].   (* "1.0.0-alpha.beta" *)
+Definition PBeta : str := [49; 46; 48; 46; 48; 45; 98; 101; 116; 97].   (* "1.0.0-beta" *)
+Definition PBeta2 : str := [49; 46; 48; 46; 48; 45; 98; 101; 116; 97; 46; 50].   (* "1.0.0-beta.2" *)
+Definition PBeta11 : str := [49; 46; 48; 46; 48; 45; 98; 101; 116; 97; 46; 49; 49].   (* "1.0.0-beta.11" *)
+Definition PRc1 : str := [49; 46; 48; 46; 48; 45; 114; 99; 46; 49].   (* "1.0.0-rc.1" *)
+
+(** the library's Compare is the precedence order of the standard (as -1 / 0 / 1), for ALL version values *)
+Theorem X01_Compare_is_precedence : forall v o, Compare v o = cmp_sign (prec v o).
+Proof. exact Compare_spec. Qed.
+Print Assumptions X01_Compare_is_precedence.
+
+(** ... and the precedence order is a total preorder: antisymmetric, transitive, equivalent versions compare alike *)
+Theorem X01_precedence_total_preorder :
+  (forall v w, prec w v = CompOpp (prec v w)) /\
+  (forall u v w, prec u v = Lt -> prec v w = Lt -> prec u w = Lt) /\
+  (forall u v, prec u v = Eq -> forall w, prec u w = prec v w) /\
+  (forall v, prec v v = Eq).
+Proof.
+  exact (conj (o_antisym prec ord_ok_prec) (conj (o_ltrans prec ord_ok_prec)
+        (conj (o_econg prec ord_ok_prec) (ord_refl prec ord_ok_prec)))).
+Qed.
+Print Assumptions X01_precedence_total_preorder.
+
+(** equivalent = same numbers and same pre-release identifiers; build metadata never matters *)
+Theorem X01_precedence_eq : forall v w, Forall canon_ident (v_pre v) -> Forall canon_ident (v_pre w) ->
+  (prec v w = Eq <-> v_major v = v_major w /\ v_minor v = v_minor w /\ v_patch v = v_patch w /\ v_pre v = v_pre w).
+Proof. exact prec_eq_iff. Qed.
+Print Assumptions X01_precedence_eq.
+
+(** each of the six comparator closures means what its operator says *)
+Theorem X01_comparators : forall c v w, comp_apply c v w = sat c v w.
+Proof. exact comp_apply_sat. Qed.
+Print Assumptions X01_comparators.
+
+(** the closure tree built by ParseRange from well-formed groups (none empty) never panics and answers
+    "one of the groups holds entirely" *)
+Theorem X01_closures : forall gs v, gs <> [] -> groups_wf gs = true ->
+  call_range (or_fn_loop gs None) v = Some (range_holds gs v).
+Proof. exact call_range_wf. Qed.
+Print Assumptions X01_closures.
+
+(** with an empty group the tree calls a nil function: the groups are tried from the left, and reaching the empty one panics *)
+Theorem X01_closures_lazy : forall g gs, g <> [] ->
+  exists f, or_fn_loop (g :: gs) None = Some f /\ forall v, call_rfn f v = lazy_or v (g :: gs).
+Proof. exact or_fn_loop_lazy. Qed.
+Print Assumptions X01_closures_lazy.
+
+Theorem X01_lazy_or_malformed : forall v gs, groups_wf gs = false -> lazy_or v gs = None \/ lazy_or v gs = Some true.
+Proof. exact lazy_or_malformed. Qed.
+Print Assumptions X01_lazy_or_malformed.
+
+(** the modelled range parser never panics and never returns an empty list of groups *)
+Theorem X01_range_parser_total : forall s, range_groups s <> Panic /\ (forall gs, range_groups s = Ok gs -> gs <> []).
+Proof. exact (fun s => conj (range_groups_no_panic s) (range_groups_nonempty s)). Qed.
+Print Assumptions X01_range_parser_total.
+
+(** IsCompatible, for ALL strings: false when the version or the range does not parse; otherwise, when no group of the
+    range is empty, exactly "the range holds" — i.e. the strict specification *)
+Theorem X01_IsCompatible : forall ver spec,
+  (forall gs, range_groups (join or_sep spec) = Ok gs -> groups_wf gs = true) ->
+  IsCompatible ver spec = spec_IsCompatible ver spec.
+Proof. exact (fun ver spec => IsCompatible_exact ver spec (range_groups_no_panic _)). Qed.
+Print Assumptions X01_IsCompatible.
+
+Theorem X01_IsCompatible_valid : forall ver spec v gs,
+  Parse ver = Some v -> range_groups (join or_sep spec) = Ok gs -> groups_wf gs = true ->
+  IsCompatible ver spec = Some (range_holds gs v).
+Proof. exact IsCompatible_valid. Qed.
+Print Assumptions X01_IsCompatible_valid.
+
+Theorem X01_IsCompatible_invalid : forall ver spec,
+  Parse ver = None \/ range_groups (join or_sep spec) = Err -> IsCompatible ver spec = Some false.
+Proof.
+  exact (fun ver spec H => match H with
+                           | or_introl Hv => IsCompatible_invalid_version ver spec Hv
+                           | or_intror Hr => IsCompatible_invalid_range ver spec Hr end).
+Qed.
+Print Assumptions X01_IsCompatible_invalid.
+
+(** the full statement "IsCompatible never panics and is false on an invalid spec" is FALSE of the faithful model:
+    a range with an empty group ("a ||  || b", an empty element between two others) is accepted by the library and
+    panics or answers true.  Both witnesses replay on the real code (known_findings.txt, docs/extra-packages.md). *)
+Theorem X01_IsCompatible_never_panics_refuted :
+  exists ver spec, IsCompatible ver spec = None /\ spec_IsCompatible ver spec = Some false.
+Proof. exact (ex_intro _ V300 (ex_intro _ [V100; []; V200] (conj eq_refl eq_refl))). Qed.
+Print Assumptions X01_IsCompatible_never_panics_refuted.
+
+Theorem X01_IsCompatible_invalid_is_false_refuted :
+  exists ver spec, IsCompatible ver spec = Some true /\ spec_IsCompatible ver spec = Some false.
+Proof. exact (ex_intro _ V100 (ex_intro _ [V1x; []; V1x] (conj eq_refl eq_refl))). Qed.
+Print Assumptions X01_IsCompatible_invalid_is_false_refuted.
+
+(** Check: the value on valid input in both builds; in a -tags debug build a panic on anything invalid;
+    in a release build a nil-function panic on an invalid range and the zero version 0.0.0 in place of an invalid one *)
+Theorem X01_Check_valid : forall dbg ver spec v gs,
+  Parse ver = Some v -> range_groups (join or_sep spec) = Ok gs -> groups_wf gs = true ->
+  Check dbg ver spec = Some (range_holds gs v).
+Proof. exact Check_valid. Qed.
+Print Assumptions X01_Check_valid.
+
+Theorem X01_Check_debug : forall ver spec,
+  (forall gs, range_groups (join or_sep spec) = Ok gs -> groups_wf gs = true) ->
+  Check true ver spec = spec_Check ver spec.
+Proof. exact (fun ver spec => Check_debug_exact ver spec (range_groups_no_panic _)). Qed.
+Print Assumptions X01_Check_debug.
+
+Theorem X01_Check_release_outside_contract : forall ver spec,
+  (range_groups (join or_sep spec) = Err -> Check false ver spec = None) /\
+  (forall gs, Parse ver = None -> range_groups (join or_sep spec) = Ok gs -> groups_wf gs = true ->
+              Check false ver spec = Some (range_holds gs zero_version)).
+Proof.
+  exact (fun ver spec => conj (Check_release_invalid_range ver spec)
+                              (fun gs => Check_release_invalid_version ver spec gs)).
+Qed.
+Print Assumptions X01_Check_release_outside_contract.
+
+(** non-vacuity: the examples of the package's documentation, pre-release precedence from the standard
+    (1.0.0-alpha < 1.0.0-alpha.1 < 1.0.0-alpha.beta < 1.0.0-beta < 1.0.0-beta.2 < 1.0.0-beta.11 < 1.0.0-rc.1 < 1.0.0),
+    a wildcard, an invalid version, an invalid range *)
+Example X01_IsCompatible_nonvacuous :
+  (exists gs, range_groups (join or_sep [R1; R2]) = Ok gs /\ groups_wf gs = true /\ length gs = 2%nat) /\
+  IsCompatible V123 [R1; R2] = Some true /\ IsCompatible V311 [R1; R2] = Some true /\
+  IsCompatible V211 [R1; R2] = Some false /\ IsCompatible V421 [R1; R2] = Some false /\
+  IsCompatible VBADV [V100] = Some false /\ IsCompatible V100 [V123; VBADR] = Some false /\
+  IsCompatible V115 [V1x] = Some true /\ IsCompatible V200 [V1x] = Some false /\
+  Check true V123 [R1; R2] = Some true /\ Check true VBADV [V100] = None /\ Check false VBADV [V000] = Some true.
+Proof.
+  split; [eexists; split; [vm_compute; reflexivity|split; reflexivity]|].
+  vm_compute. intuition congruence.
+Qed.
+
+Example X01_precedence_nonvacuous :
+  (forall a b, In (a, b) [(PAlpha, PAlpha1); (PAlpha1, PAlphaBeta); (PAlphaBeta, PBeta); (PBeta, PBeta2);
+                          (PBeta2, PBeta11); (PBeta11, PRc1); (PRc1, V100)] ->
+     match Parse a, Parse b with Some v, Some w => prec v w = Lt /\ Compare v w = -1 | _, _ => False end) /\
+  match Parse V100b, Parse V100 with Some v, Some w => prec v w = Eq /\ v <> w | _, _ => False end.
+Proof.
+  split.
+  - intros a b H. cbn [In] in H.
+    repeat (destruct H as [H|H]; [inversion H; subst; vm_compute; split; reflexivity|]). destruct H.
+  - vm_compute. split; [reflexivity|discriminate].
+Qed.
